@@ -6,6 +6,7 @@ pub mod c05;
 pub mod c06;
 pub mod c07;
 pub mod c08;
+pub mod c10;
 pub mod c12;
 pub mod c16;
 pub mod tools;
@@ -19,6 +20,7 @@ pub fn lookup(id: &str) -> Option<&'static dyn Prop> {
         "C06" => &c06::C06,
         "C07" => &c07::C07,
         "C08" => &c08::C08,
+        "C10" => &c10::C10,
         "C12" => &c12::C12,
         "C16" => &c16::C16,
         _ => return None,
